@@ -56,6 +56,7 @@ func revertToManifest(kv *DB, mf *Manifest, idMap map[uint64]struct{}) error {
 		if _, ok := mf.Tables[id]; !ok {
 			kv.opt.Debugf("Table file %d not referenced in MANIFEST\n", id)
 			filename := table.NewFilename(id, kv.opt.Dir)
+			y.VerifPoint("open.revert.remove.pre")
 			if err := os.Remove(filename); err != nil {
 				return y.Wrapf(err, "While removing table %d", id)
 			}
@@ -230,6 +231,7 @@ func (s *levelsController) dropTree() (int, error) {
 		return 0, err
 	}
 
+	y.VerifPoint("droptree.manifest")
 	// Now that manifest has been successfully written, we can delete the tables.
 	for _, l := range s.levels {
 		l.Lock()
@@ -1460,6 +1462,7 @@ func (s *levelsController) runCompactDef(id, l int, cd compactDef) (err error) {
 			err = decErr
 		}
 	}()
+	y.VerifPoint("compact.built")
 	changeSet := buildChangeSet(&cd, newTables)
 
 	// We write to the manifest _before_ we delete files (and after we created files)
@@ -1467,6 +1470,7 @@ func (s *levelsController) runCompactDef(id, l int, cd compactDef) (err error) {
 		return err
 	}
 
+	y.VerifPoint("compact.manifest")
 	getSizes := func(tables []*table.Table) int64 {
 		size := int64(0)
 		for _, i := range tables {
@@ -1488,10 +1492,12 @@ func (s *levelsController) runCompactDef(id, l int, cd compactDef) (err error) {
 	if err := nextLevel.replaceTables(cd.bot, newTables); err != nil {
 		return err
 	}
+	y.VerifPoint("compact.replaced")
 	if err := thisLevel.deleteTables(cd.top); err != nil {
 		return err
 	}
 
+	y.VerifPoint("compact.deleted")
 	// Note: For level 0, while doCompact is running, it is possible that new tables are added.
 	// However, the tables are added only to the end, so it is ok to just delete the first table.
 
@@ -1598,6 +1604,7 @@ func (s *levelsController) addLevel0Table(t *table.Table) error {
 		}
 	}
 
+	y.VerifPoint("l0.manifest")
 	for !s.levels[0].tryAddLevel0Table(t) {
 		// Before we uninstall, we need to make sure that level 0 is healthy.
 		timeStart := time.Now()
